@@ -413,9 +413,9 @@ Proof.
     specialize (IH xs ltac:(lia)). unfold gauss_mode in IH. lra.
 Qed.
 
-Lemma max_at_spec l m : max_at l m <-> (forall k, (k < length l)%nat -> nth k l 0 <= nth m l 0).
+Lemma max_at_spec l m : max_at l m <-> ((m < length l)%nat /\ forall k, (k < length l)%nat -> nth k l 0 <= nth m l 0).
 Proof.
-  unfold max_at. generalize (nth m l 0) as v. intros v.
+  unfold max_at. apply and_iff_compat_l. generalize (nth m l 0) as v. intros v.
   induction l as [|x t IH]; cbn [fold_right length].
   - split; [intros _ k Hk; lia | auto].
   - rewrite IH. split.
@@ -455,12 +455,12 @@ Proof.
   pose proof (argmax_from_spec t 1 0 x [x] eq_refl ltac:(lia) eq_refl) as H.
   cbn [app] in H. destruct H as [H1 H2].
   - intros k Hk. assert (k = 0)%nat by lia. subst. cbn. lra.
-  - split; [exact H1|]. apply max_at_spec. exact H2.
+  - split; [exact H1|]. apply max_at_spec. split; [exact H1 | exact H2].
 Qed.
 
 Lemma cat_mode_maximises l m k : max_at l m -> (k < length l)%nat -> cat_logprob l k <= cat_logprob l m.
 Proof.
-  intros H Hk. unfold cat_logprob. pose proof (proj1 (max_at_spec l m) H k Hk). lra.
+  intros H Hk. unfold cat_logprob. pose proof (proj2 (proj1 (max_at_spec l m) H) k Hk). lra.
 Qed.
 
 Lemma multicat_mode_maximises dims : forall a,
@@ -644,3 +644,80 @@ Qed.
 (* used by the correspondence goals: the gSDE squash correction evaluated at the inverted action *)
 Lemma bijector_correction_artanh eps a : -1 < a < 1 -> bijector_correction eps (artanh a) = squash_correction eps a.
 Proof. intros H. unfold bijector_correction, squash_correction. rewrite tanh_artanh by exact H. reflexivity. Qed.
+
+(* ---------- gSDE reduces to a diagonal Gaussian with std = sqrt(variance + eps) ---------- *)
+Definition gsde_params (eps : R) (x means : list R) (stdcols : list (list R)) : gparams :=
+  map (fun ms => (fst ms, ln (gsde_std eps x (snd ms)))) (combine means stdcols).
+
+Lemma gsde_logpdfs_gauss eps x : 0 < eps -> forall cs g,
+  map2 (fun ms gi => normal_logpdf (fst ms) (gsde_std eps x (snd ms)) gi) cs g
+  = gauss_logpdfs (map (fun ms => (fst ms, ln (gsde_std eps x (snd ms)))) cs) g.
+Proof.
+  intros He. unfold gauss_logpdfs. induction cs as [|c cs IH]; intros [|gi g]; cbn [map map2]; try reflexivity.
+  cbn [fst snd]. rewrite exp_ln by (apply gsde_std_positive; exact He). rewrite IH. reflexivity.
+Qed.
+
+Lemma gsde_logprob_is_gaussian eps x means stdcols acts : 0 < eps ->
+  gsde_logprob eps x means stdcols acts = gauss_logprob (gsde_params eps x means stdcols) acts.
+Proof. intros He. unfold gsde_logprob, gsde_logpdfs, gauss_logprob, gsde_params. rewrite gsde_logpdfs_gauss by exact He. reflexivity. Qed.
+
+Lemma gsde_entropy_is_gaussian eps x stdcols means : 0 < eps -> length means = length stdcols ->
+  gsde_entropy eps x stdcols = gauss_entropy (gsde_params eps x means stdcols).
+Proof.
+  intros He. unfold gsde_entropy, gauss_entropy, gsde_params. revert means.
+  induction stdcols as [|c cs IH]; intros [|m ms] Hl; cbn in Hl; try discriminate; cbn [map combine]; [reflexivity|].
+  rewrite !sumR_cons. cbn [snd]. rewrite exp_ln by (apply gsde_std_positive; exact He). f_equal. apply IH. congruence.
+Qed.
+
+(* squashed gSDE: the Gaussian log-density at the inverted action minus the squash correction at the action *)
+Lemma gsde_logprob_squashed_spec feps eps x means stdcols acts :
+  List.Forall (fun a => -1 + feps <= a <= 1 - feps /\ -1 < a < 1) acts ->
+  gsde_logprob_squashed feps eps x means stdcols acts
+  = gsde_logprob eps x means stdcols (map artanh acts) - sumR (map (squash_correction eps) acts).
+Proof.
+  intros H. unfold gsde_logprob_squashed, gsde_logprob. cbn zeta.
+  assert (E : map (tanh_inverse feps) acts = map artanh acts).
+  { induction H as [|a t [Ha _] _ IH]; cbn [map]; [reflexivity|]. rewrite IH, tanh_inverse_inside by exact Ha. reflexivity. }
+  rewrite E. f_equal. f_equal. rewrite map_map. clear E.
+  induction H as [|a t [_ Ha] _ IH]; cbn [map]; [reflexivity|]. rewrite IH. rewrite bijector_correction_artanh by exact Ha. reflexivity.
+Qed.
+
+(* sampling: action = mean + latent . weights; the mode is the sample with zero weights *)
+Lemma gsde_sample_spec x : forall means wcols,
+  gsde_sample x means wcols = map2 (fun m w => m + dot x w) means wcols /\
+  (forall j, nth j (gsde_sample x means wcols) 0 - nth j means 0 = if (j <? Nat.min (length means) (length wcols))%nat then dot x (nth j wcols []) else 0 - nth j means 0).
+Proof.
+  intros means wcols. split; [reflexivity|]. unfold gsde_sample. revert wcols.
+  induction means as [|m means IH]; intros wcols j.
+  - cbn. destruct j; ring.
+  - destruct wcols as [|w wcols]; [cbn; destruct j; ring|].
+    destruct j; cbn [map2 nth length Nat.min Nat.ltb Nat.leb]; [ring|]. apply IH.
+Qed.
+
+(* samples of the squashed distributions lie in the open support (-1, 1) *)
+Lemma squashed_sample_in_support p noise : List.Forall (fun a => -1 < a < 1) (squashed_sample p noise).
+Proof. unfold squashed_sample. induction (gauss_rsample p noise); cbn [map]; constructor; [apply tanh_range | assumption]. Qed.
+
+(* the pre-image of mode() maximises the pre-squash Gaussian density *)
+Lemma squashed_mode_preimage_maximises p xs : length xs = length p ->
+  gauss_logprob p xs <= gauss_logprob p (map artanh (squashed_mode p)).
+Proof.
+  intros H. unfold squashed_mode. rewrite map_map.
+  assert (E : map (fun u => artanh (tanh u)) (gauss_mode p) = gauss_mode p).
+  { induction (gauss_mode p); cbn [map]; [reflexivity|]. rewrite artanh_tanh, IHl. reflexivity. }
+  rewrite E. apply gauss_mode_maximises. exact H.
+Qed.
+
+(* round(p) in terms of the logit, used to compare bernoulli_mode with the implementation *)
+Lemma bern_mode1_cases l : (0 < l -> bern_mode1 l = true) /\ (l <= 0 -> bern_mode1 l = false).
+Proof.
+  unfold bern_mode1. split; intros H; destruct (Rlt_dec (1 / 2) (sigmoid l)) as [S|S]; try reflexivity; exfalso.
+  - apply S. apply sigmoid_gt_half. exact H.
+  - apply sigmoid_gt_half in S. lra.
+Qed.
+
+(* one step of argmax on a literal list, used to compare the model's argmax with the implementation's mode() *)
+Lemma argmax_from_lt x t i best bv : bv < x -> argmax_from (x :: t) i best bv = argmax_from t (S i) i x.
+Proof. intros H. cbn [argmax_from]. destruct (Rlt_dec bv x); [reflexivity | lra]. Qed.
+Lemma argmax_from_ge x t i best bv : x <= bv -> argmax_from (x :: t) i best bv = argmax_from t (S i) best bv.
+Proof. intros H. cbn [argmax_from]. destruct (Rlt_dec bv x); [lra | reflexivity]. Qed.
